@@ -50,9 +50,30 @@ MANIFEST = dict(
          'without cordons.',
 )
 
+# The precision the property demands of every number, by (block, literal key text, index of the number in the value) of the
+# *written format* (not of the source): six significant digits for face rotation, output delay (number 0 of an output value)
+# and the multiblend / alphablend arrays; exact for integers, flags and the numbers the oracle compares exactly (written by
+# repr); 5e-7 for everything else (coordinates, texture axes, colours, viewports).
+REQUIRED_SIG6 = {('side', 'rotation', 0), ('connections', '', 0), ('multiblend', 'row', 0), ('alphablend', 'row', 0)}
+REQUIRED_EXACT = {('connections', '', 1), ('point_data', 'point', 0), ('dispinfo', 'elevation', 0), ('distances', 'row', 0),
+                  ('alphas', 'row', 0), ('triangle_tags', 'row', 0), ('allowed_verts', '10', 0), ('cordon', 'active', 0),
+                  ('cordons', 'active', 0)}
+EXACT_KEYS = {'id', 'groupid', 'visgroupid', 'visgroupshown', 'visgroupautoshown', 'activecamera', 'flags', 'power', 'subdiv',
+              'numpts', 'count', 'lightmapscale', 'smoothing_groups', 'editorbuild', 'editorversion', 'formatversion', 'mapversion',
+              'prefab', 'bshow3dgrid', 'bshowgrid', 'bshowlogicalgrid', 'bsnaptogrid', 'ngridspacing', 'ninstancevisibility'}
+
+
+def required_class(block: str, key: str, idx: int) -> str:
+    if (block, key, idx) in REQUIRED_SIG6:
+        return 'PSig6'
+    if (block, key, idx) in REQUIRED_EXACT or key in EXACT_KEYS:
+        return 'PExact'
+    return 'PAbs6'
+
+
 IMPORTS = ['Coq.NArith.NArith', 'Coq.ZArith.ZArith', 'Coq.Lists.List', 'Coq.Strings.String', 'SV.KV.KvBase', 'SV.Fmt.VmfText',
            'SV.Fmt.VmfBlocks', 'SV.Gen.VmfTemplates_gen', 'SV.Gen.VmfKeys_gen', 'SV.Gen.VmfDispSizes_gen', 'SV.Gen.VmfOrder_gen',
-           'SV.Gen.VmfProg_gen', 'SV.Fmt.VmfFields', 'SV.Gen.VmfFieldsCfg_gen', 'SV.KV.KvSym', 'SV.Gen.KVSer_gen', 'SV.Props.C06']
+           'SV.Gen.VmfProg_gen', 'SV.Fmt.VmfFields', 'SV.Gen.VmfFieldsCfg_gen', 'SV.Fmt.VmfNum', 'SV.Gen.VmfNumFmt_gen', 'SV.KV.KvSym', 'SV.Gen.KVSer_gen', 'SV.Props.C06']
 PRE = '''Import ListNotations. Open Scope string_scope.
 Fixpoint nl_eqb (a b : list N) : bool := match a, b with [], [] => true | x :: a', y :: b' => N.eqb x y && nl_eqb a' b' | _, _ => false end.
 Fixpoint bad_idx {A} (f : A -> bool) (n : N) (l : list A) : list N := match l with [] => [] | x :: r => (if f x then [] else [n]) ++ bad_idx f (n + 1)%N r end.
@@ -366,6 +387,127 @@ def validate_tables(ck: Ck, side_templates: dict, side_keys: dict) -> None:
     ck.obligation('tie:field_type_table', not wrong, f'{checked} interpolated attributes evaluated on real objects; mismatches: {wrong[:6]}')
     if wrong:
         ck.tie_broken.append('hand field-type table disagrees with real attribute types')
+    # (b2) number kinds / member kinds: the hand tables against the real attributes
+    from srctools.math import Angle
+    from srctools.vmf import UVAxis, Vec4
+    kinds = {'int': lambda v: isinstance(v, int), 'float': lambda v: isinstance(v, (int, float)) and not isinstance(v, bool),
+             'Vec': lambda v: isinstance(v, Vec), 'Angle': lambda v: isinstance(v, Angle), 'UVAxis': lambda v: isinstance(v, UVAxis),
+             'Vec4': lambda v: isinstance(v, Vec4), 'intlist': lambda v: not isinstance(v, str) and all(isinstance(x, int) for x in v)}
+    kwrong, kchecked = [], 0
+    samples = {'point': Vec(), 'i': 0, 'y': 0, 'group': 1, 'group_id': 1, 'vis_id': 1, 'fixup': next(iter(ent._fixup._fixup.values())),
+               'vert': vmf.brushes[0].sides[0]._disp_verts[0]}
+    for expr, kind in T.NUM_KINDS.items():
+        for cls, obj in inst.items():
+            try:
+                val = eval(expr, dict(samples, self=obj))
+            except Exception:
+                continue
+            if expr == 'self.target' and cls == 'Output':
+                continue
+            if expr.startswith('self.') and not any(expr in site['key'] + site['val'] for site in side_templates['sites']
+                                                    if site['fn'].split('.')[0] == cls):
+                continue          # attribute of the same name on a class that does not write it
+            kchecked += 1
+            if not kinds[kind](val):
+                kwrong.append((cls, expr, kind, type(val).__name__))
+    vert0 = vmf.brushes[0].sides[0]._disp_verts[0]
+    for member, kind in T.MEMBER_KINDS.items():
+        val = (vert0.multi_colors or [Vec()])[0] if member == 'multi_colors[i]' else getattr(vert0, member)
+        kchecked += 1
+        if not kinds[kind](val):
+            kwrong.append(('DispVertex', member, kind, type(val).__name__))
+    ck.obligation('tie:number_kind_table', not kwrong and kchecked >= 40, f'{kchecked} number-like expressions evaluated on real objects; '
+                  f'mismatches: {kwrong[:6]}')
+    if kwrong:
+        ck.tie_broken.append('hand number-kind table disagrees with real attribute types')
+    # (b3) the recorded formatter of every number against the really exported text: every number token must be a fixed
+    # point of the format recorded for its position (block, key, index within the value)
+    a = T.analyse()
+    by_pos: dict[tuple, list] = {}
+    for f in a['numfields']:
+        by_pos.setdefault((f['fn'], f['block'], f['key']), []).append(f)
+    cand: dict[str, list] = {}
+    for st in a['sites']:
+        cand.setdefault(st.block, []).append(st)
+
+    def fixed_point(tok: str, f: Any) -> bool:
+        if tok == '-0':
+            tok = '0'          # known finding text-negative-zero
+        try:
+            if f == 'I':
+                return str(int(tok)) == tok
+            if f == 'B':
+                return tok in ('0', '1')
+            x = float(tok)
+            if f == 'R':
+                return repr(x) == tok or (x == int(x) and str(int(x)) == tok)
+            if f[0] == 'F':
+                t = '%.*f' % (f[1], x + 0.0)
+                return (t.rstrip('0').rstrip('.') if '.' in t else t) == tok
+            if f[0] == 'G':
+                return '%.*g' % (f[1], x) == tok
+        except ValueError:
+            return False
+        return False
+
+    def site_regex(st: Any) -> str:
+        out = ''
+        for pc in st.val:
+            if pc.kind == 'lit':
+                out += re.escape(pc.text)
+            elif pc.cls == 'Num':
+                out += r'([-+0-9.e ]*?)'
+            elif pc.cls == 'Sep':
+                out += r'[,\x1b]'
+            else:
+                out += r'(?:.*?)'
+        return out
+    nbad: list = []
+    ntok = [0]
+    seen_pos: set = set()
+
+    def walk_nums(kv: Any, block: str) -> None:
+        for ch in kv:
+            name = ch.name
+            if ch.has_children():
+                walk_nums(ch, f'editor@{block}' if name == 'editor' else T.BLOCK_ALIAS.get(name, name))
+                continue
+            results = []
+            for st in cand.get(block, []):
+                ktxt = ''.join(pc.text for pc in st.key if pc.kind == 'lit').casefold()
+                dyn = any(pc.kind != 'lit' for pc in st.key)
+                if not (name == ktxt or (dyn and name.startswith(ktxt))):
+                    continue
+                recs = by_pos.get((st.fn, block, ktxt), [])
+                if not recs:
+                    continue
+                m = re.fullmatch(site_regex(st), ch.value, re.S)
+                if not m:
+                    continue
+                errs = []
+                for f in recs:
+                    toks = m.group(f['idx'] + 1).split()
+                    fm = f['raw']
+                    if not toks or len(toks) % len(fm):
+                        errs.append((block, name, f['idx'], f['fmts'], f'{len(toks)} numbers'))
+                        continue
+                    for j, tok in enumerate(toks):
+                        if not fixed_point(tok, fm[j % len(fm)]):
+                            errs.append((block, name, f['idx'], f['fmts'][j % len(fm)], tok))
+                            break
+                results.append((errs, len(recs), (block, ktxt)))
+            if results:
+                best = min(results, key=lambda r: len(r[0]))
+                ntok[0] += best[1]
+                seen_pos.add(best[2])
+                nbad.extend(best[0][:1])
+    walk_nums(tree, '<file>')
+    ck.count('number_groups_checked_against_recorded_format', ntok[0])
+    ck.obligation('tie:number_formats_on_exported_text', not nbad and len(seen_pos) >= 40,
+                  f'{ntok[0]} numbers at {len(seen_pos)} distinct (block, key) positions of really exported text are fixed points of the '
+                  f'format recorded for them; not so: {nbad[:5]}')
+    if nbad:
+        ck.tie_broken.append('recorded number formats disagree with the exported text')
     # (c) arity
     vert = vmf.brushes[0].sides[0]._disp_verts[0]
     bad = []
@@ -612,7 +754,20 @@ def run(ck: Ck) -> None:
         for pw in (1, 2, 3, 4):
             obs[f'disp_row_keys_read:power{pw}'] = (f'(forallb (fun p => rows_recognised gen_rowreader p (Z.to_nat (gen_disp_size {pw}))) '
                                                     f'gen_row_prefixes && negb (Nat.eqb (List.length gen_row_prefixes) 0))%bool')
-        obs['output_separators_agree'] = '((gen_out_esc =? ESC) && (gen_out_write_comma =? COMMA) && (gen_out_read_comma =? COMMA))%N%bool'
+        obs['output_separators_agree'] = ('(((gen_out_esc =? ESC) && (gen_out_write_comma =? COMMA) && (gen_out_read_comma =? COMMA) && '
+                                          '(gen_out_write_esc =? ESC) && (gen_out_read_esc =? ESC))%N && negb gen_out_flag_when_esc && '
+                                          'gen_out_flag_when_comma)%bool')
+        # number formats per field (round 3): every number of every written line is written by a format that keeps the
+        # precision the property demands of it
+        nfields = tr.get('VmfNumFmt_gen', {}).get('fields', [])
+        triples = sorted({(f['block'], f['key'], f['idx']) for f in nfields})
+        for b, k, i in triples:
+            obs[f'number_format:{b}/{k or "<name>"}#{i}'] = f'field_meets "{b}" "{k}" {i}%N {required_class(b, k, i)} num_fields'
+        for b, k, i in sorted(REQUIRED_SIG6 | REQUIRED_EXACT):
+            obs.setdefault(f'number_format:{b}/{k or "<name>"}#{i}', f'field_meets "{b}" "{k}" {i}%N {required_class(b, k, i)} num_fields')
+        obs['number_fields_complete'] = f'({len(REQUIRED_SIG6 | REQUIRED_EXACT)} <=? List.length num_fields)%nat'
+        for f in nfields:
+            ck.hist('number_format', '+'.join(sorted(set(f['fmts']))) + '->' + required_class(f['block'], f['key'], f['idx']))
         obs['output_field_count_and_recombination'] = '(Nat.eqb gen_out_exact_fields 5 && Nat.eqb gen_out_recombine_from 6)%bool'
         obs['output_field_order_agrees'] = ('(nlist_eqb gen_out_write_order (0 :: 1 :: 2 :: 3 :: 4 :: nil)%N && nlist_eqb gen_out_read_order (0 :: 1 :: 2 :: 3 :: 4 :: nil)%N)%bool')
         res = ck.instance_obligations(IMPORTS, obs, name='c06')
@@ -653,6 +808,17 @@ def run(ck: Ck) -> None:
         ck.explain('translate:VmfFieldsCfg_gen')
     if any(k.startswith(('parse-error:ValueError', 'file:parse-error:ValueError')) for k in keys):
         ck.explain('instance:disp_row_keys_read')      # an unreadable row index surfaces as ValueError from Side._iter_disp_row
+    # a failed number_format obligation is explained by a field/text violation at that position of the format
+    alias = {'rotation': ['.rot'], 'connections': ['outputs.delay', 'outputs.times', 'connections'], 'lightmapscale': ['lightmap'],
+             'smoothing_groups': ['smooth'], 'startposition': ['disp.pos'], 'box': ['cordons'], 'point_data': ['strata_points']}
+    for o in ck.obligations:
+        m = re.fullmatch(r'instance:number_format:(?:editor@)?([^/]*)/([^#]*)#\d+', o['name'])
+        if m and not o['ok']:
+            marks = [x for x in (m.group(1), m.group(2)) if x and x != '<name>']
+            marks += [y for x in list(marks) for y in alias.get(x, [])]
+            if any(k.startswith(('field:', 'text:', 'file:field:', 'file:text:')) and any(x in k for x in marks) for k in keys):
+                ck.explain(o['name'])
+                ck.explain('tie:number_formats_on_exported_text')
     if any('outputs' in k or 'connections' in k or 'Bad output value' in k for k in keys):
         ck.explain('translate:VmfFieldsCfg_gen')
         ck.explain('instance:output_')
